@@ -5,6 +5,7 @@ import (
 	"flag"
 	"fmt"
 	"os"
+	"runtime/pprof"
 	"strings"
 	"sync"
 	"time"
@@ -35,7 +36,14 @@ func main() {
 	tlimit := flag.Duration("timelimit", 0, "per-entry time limit")
 	modelFile := flag.String("model", "", "replay: JSON file {name: hex}")
 	nomerge := flag.Bool("nomerge", false, "disable diamond merging")
+	nocache := flag.Bool("nomodelcache", false, "disable the model cache")
+	cpuprof := flag.String("cpuprofile", "", "write CPU profile")
 	flag.Parse()
+	if *cpuprof != "" {
+		f, _ := os.Create(*cpuprof)
+		pprof.StartCPUProfile(f)
+		defer pprof.StopCPUProfile()
+	}
 
 	res := &output{Pkg: *pkg, Tier: *tier}
 	fail := func(err error) {
@@ -56,7 +64,7 @@ func main() {
 	} else {
 		ents = L.Entries()
 	}
-	opts := gosym.RunOpts{Tier: *tier, Verbose: *verbose, Known: map[string]bool{}, TimeLimit: *tlimit, NoMerge: *nomerge}
+	opts := gosym.RunOpts{Tier: *tier, Verbose: *verbose, Known: map[string]bool{}, TimeLimit: *tlimit, NoMerge: *nomerge, NoModelCache: *nocache}
 	for _, k := range strings.Split(*known, ",") {
 		if k != "" {
 			opts.Known[k] = true
@@ -100,6 +108,28 @@ func main() {
 	}
 	wg.Wait()
 	code := 0
+	// a Reach tag declared in a shared helper counts as hit when any entry of this run hit it
+	hitAny := map[string]bool{}
+	for _, r := range results {
+		if r != nil {
+			for t, n := range r.ReachHit {
+				if n > 0 {
+					hitAny[t] = true
+				}
+			}
+		}
+	}
+	for _, r := range results {
+		if r != nil {
+			var miss []string
+			for _, t := range r.ReachMissing {
+				if !hitAny[t] {
+					miss = append(miss, t)
+				}
+			}
+			r.ReachMissing = miss
+		}
+	}
 	for i, r := range results {
 		if errs[i] != nil {
 			res.Error += errs[i].Error() + "\n"
@@ -125,6 +155,9 @@ func main() {
 		}
 	}
 	write(*out, res)
+	if *cpuprof != "" {
+		pprof.StopCPUProfile()
+	}
 	os.Exit(code)
 }
 
